@@ -43,6 +43,46 @@ fn mint_fee_integration(k: usize, price: u128, bps: u64) -> String {
     }
 }
 
+/// Integration: CreateMinter on a real factory of each of the four kinds, creation fee `fee` in denom `fd`, minimum / mint price in
+/// denom `md`, creator pays exactly `pay` of denom `fd`. Reports what was burned (native supply drop), what the fair-burn pool and
+/// the launchpad DAO received (DAO in the fee's denom). The branch must depend on the CREATION FEE's denom only.
+fn create_fee_integration(fk: usize, fd: u64, md: u64, fee: u128, pay: u128) -> (u64, String) {
+    let kind = [MinterKind::Vending, MinterKind::OpenEdition, MinterKind::TokenMerge, MinterKind::Base][fk % 4];
+    let mut w = MWorld::new(GENESIS + 1000);
+    let mut p = w.default_params(kind);
+    p.creation_fee = (fd, fee);
+    p.min_mint_price = (md, p.min_mint_price.1);
+    p.airdrop_mint_price = (md, p.airdrop_mint_price.1);
+    let Ok(f) = w.new_factory(kind.factory(), &p) else { return (0, "setup-factory-failed".into()) };
+    let mut a = w.default_create(kind, &p);
+    a.mint_price = (md, a.mint_price.1);
+    if kind == MinterKind::TokenMerge {
+        // a source collection for the merge requirement: a base minter's collection in the same world
+        let pb = w.default_params(MinterKind::Base);
+        let Ok(fb) = w.new_factory(lp_harness::minters::FactoryKind::Base, &pb) else { return (0, "setup-factory-failed".into()) };
+        let ab = w.default_create(MinterKind::Base, &pb);
+        w.fund(&addr(ab.creator), 0, pb.creation_fee.1);
+        let Ok((_mb, cb)) = w.create_minter(&fb, MinterKind::Base, &ab) else { return (0, "setup-create-failed".into()) };
+        a.mint_tokens = vec![(cb, 1)];
+    }
+    a.funds = if pay > 0 { vec![(fd, pay)] } else { vec![] };
+    w.fund(&addr(a.creator), fd, pay);
+    let sup0 = w.supply(0);
+    let pool0 = w.balance(&addr(ID_FAIRBURN_POOL), 0);
+    let lp0 = w.balance(&addr(ID_LAUNCHPAD_DAO), fd);
+    let out = match w.create_minter(&f, kind, &a) {
+        Err(_) => "err".into(),
+        Ok(_) => format!(
+            "ok burned={} pool={} lp={} ## factory={}",
+            sup0 - w.supply(0),
+            w.balance(&addr(ID_FAIRBURN_POOL), 0) - pool0,
+            w.balance(&addr(ID_LAUNCHPAD_DAO), fd) - lp0,
+            w.balance(&f, fd)
+        ),
+    };
+    (addr_id(&f), out)
+}
+
 /// Integration: Shuffle on a vending-family minter whose factory charges `fee`, paying `pay`.
 fn shuffle_fee_integration(k: usize, fee: u128, pay: u128) -> (u64, String) {
     let kind = MinterKind::from_idx(k);
@@ -84,6 +124,11 @@ impl Sut for S {
             let out = mint_fee_integration(kv_u64(line, "kind").unwrap() as usize, kv_u128(line, "price").unwrap(), kv_u64(line, "bps").unwrap());
             self.last = Some((line.to_string(), out.clone()));
             return (format!("{line} dev={DEV}"), out);
+        }
+        if op == "createfee" {
+            let (f, out) = create_fee_integration(kv_u64(line, "fk").unwrap() as usize, kv_u64(line, "fd").unwrap(), kv_u64(line, "md").unwrap(), kv_u128(line, "fee").unwrap(), kv_u128(line, "pay").unwrap());
+            self.last = Some((line.to_string(), out.clone()));
+            return (format!("{line} factory={f}"), out);
         }
         if op == "shufflefee" {
             let (m, out) = shuffle_fee_integration(kv_u64(line, "kind").unwrap() as usize, kv_u128(line, "fee").unwrap(), kv_u128(line, "pay").unwrap());
@@ -177,6 +222,23 @@ impl Sut for S {
                 }
                 if got != want {
                     return badk("fee-schedule", format!("expected dev/liq/lp/burned/pool = {:?} (featured={featured}, developer={has_dev})", want));
+                }
+                None
+            }
+            "createfee" if out.starts_with("ok") => {
+                let fk = kv_u64(&line, "fk").unwrap() as usize;
+                let name = ["vending-factory", "open-edition-factory", "token-merge-factory", "base-factory"][fk % 4];
+                let fd = kv_u64(&line, "fd").unwrap();
+                let f = kv_u128(&line, "fee").unwrap();
+                let pay = kv_u128(&line, "pay").unwrap();
+                let got = (getn(&out, "burned"), getn(&out, "pool"), getn(&out, "lp"));
+                // native fee: fair burn of exactly the fee; any other denom: the whole payment to the launchpad DAO
+                let want = if fd == 0 { (f / 2, f - f / 2, 0) } else { (0, 0, pay) };
+                if got != want {
+                    return Some((format!("{name}/create_minter/creation-fee-routing"), format!("creation fee {f} of denom {fd} (paid {pay}): expected burned/pool/launchpad-DAO = {:?}, got {:?} on `{line}`", want, got)));
+                }
+                if pay < f {
+                    return Some((format!("{name}/create_minter/insufficient-fee-accepted"), format!("creation accepted with payment below the fee on `{line}`")));
                 }
                 None
             }
@@ -365,6 +427,21 @@ fn main() {
         }
         ses.require(format!("caller:{name}:ok:fee-odd"));
         ses.require(format!("caller:{name}:ok:fee-even"));
+    }
+    // creation fee routing: 4 factories x fee denom {native, other} x minimum-price denom {native, other} x exact / short payment
+    for fk in 0..4u64 {
+        let name = ["vending-factory", "open-edition-factory", "token-merge-factory", "base-factory"][fk as usize];
+        for fd in [0u64, 1] {
+            for md in [0u64, 1] {
+                for fee in [5_000_000_000u128, 5_000_000_001, 3] {
+                    for pay in [fee, fee - 1] {
+                        let out = ses.step(&mut sut, &format!("createfee fk={fk} fd={fd} md={md} fee={fee} pay={pay}"));
+                        ses.mark(format!("createfee:{name}:fd{fd}:md{md}:{}:{}", if pay == fee { "exact" } else { "short" }, &out[..2]));
+                    }
+                }
+                ses.require(format!("createfee:{name}:fd{fd}:md{md}:exact:ok"));
+            }
+        }
     }
     for k in 0..6u64 {
         let name = MinterKind::from_idx(k as usize).name();
